@@ -4,5 +4,6 @@ CONSTANTS
   MaxN = 3
   Modes = {"pdh", "uuid"}
   MaxHist = 20
-INVARIANTS Emit
+INVARIANTS Emit TypeOK FirstIsHonest ChanFits
+PROPERTIES Refines
 CHECK_DEADLOCK FALSE
